@@ -94,7 +94,7 @@ int main(int argc, char ** argv)
       dump += "]";
     }
     dump += "]";
-    long samples = 0, events = 0;
+    long samples = 0, events = 0, flat_runs = 0;
     std::set<std::string> cells;
     std::string sample;
     if (arrays.size() == (size_t)n + 1 && n >= 2) {
@@ -151,6 +151,11 @@ int main(int argc, char ** argv)
           u1s.push_back(std::nextafter(c1[k], 0.0));
           if (c1[k] < 1) u1s.push_back(std::nextafter(c1[k], 2.0));
         }
+        for (size_t k = 0; k + 1 < c1.size(); k++)
+          if (c1[k] == c1[k + 1] && c1[k] > 0 && c1[k] < 1 && (k == 0 || c1[k - 1] != c1[k])) {
+            u1s.push_back(c1[k]);
+            flat_runs++;
+          }
         for (double u1 : u1s) {
           if (!(u1 > 0 && u1 <= 1)) continue;
           int i = -1;
@@ -164,6 +169,12 @@ int main(int argc, char ** argv)
               u2s.push_back(std::nextafter(c2[k], 0.0));
               if (c2[k] < 1) u2s.push_back(std::nextafter(c2[k], 2.0));
             }
+            // every flat run (cells of zero probability): a deviate exactly on the repeated value belongs to the first of them
+            for (size_t k = 0; k + 1 < c2.size(); k++)
+              if (c2[k] == c2[k + 1] && c2[k] > 0 && c2[k] < 1 && (k == 0 || c2[k - 1] != c2[k])) {
+                u2s.push_back(c2[k]);
+                flat_runs++;
+              }
           }
           for (double u2 : u2s)
             if (u2 > 0 && u2 <= 1) check_pair(u1, u2);
@@ -244,8 +255,8 @@ int main(int argc, char ** argv)
     } else {
       fail("decode|shape", fmt("decoded %zu arrays for %d energy samples", arrays.size(), n));
     }
-    fprintf(OUT, "{\"dataset\":%s,\"n\":%d,\"esum\":%s,\"emin\":%s,\"emax\":%s,\"samples\":%ld,\"events\":%ld,\"cells\":%zu,\"sample\":%s,\"decoded\":%s,", jstr(lab).c_str(), n,
-            jnum(esum).c_str(), jnum(emin).c_str(), jnum(emax).c_str(), samples, events, cells.size(), sample.empty() ? "null" : sample.c_str(), dump.c_str());
+    fprintf(OUT, "{\"dataset\":%s,\"n\":%d,\"esum\":%s,\"emin\":%s,\"emax\":%s,\"samples\":%ld,\"events\":%ld,\"flat_runs\":%ld,\"cells\":%zu,\"sample\":%s,\"decoded\":%s,", jstr(lab).c_str(), n,
+            jnum(esum).c_str(), jnum(emin).c_str(), jnum(emax).c_str(), samples, events, flat_runs, cells.size(), sample.empty() ? "null" : sample.c_str(), dump.c_str());
     emit_mismatches(OUT, "mismatches", mm);
     fprintf(OUT, "}\n");
     fflush(OUT);
